@@ -1,7 +1,7 @@
 LIBS = ["libvpsc", "libcola"]          # libcola needs nothing from libavoid/libtopology (TopologyAddonInterface has a default)
 HARNESS = "harness/c07.cpp"
 DRIVER_MODE = "c07"
-LEAN_MODULES = ["AdaptaVerif.Props.C07", "AdaptaVerif.Props.C07Tie"]
+LEAN_MODULES = ["AdaptaVerif.Props.C07", "AdaptaVerif.Props.C07Tie", "AdaptaVerif.Props.C07MakeFeasible"]
 LEVEL = "translation_validation"
 LEVEL_TEXT = ("Proof component: for every libcola compound-constraint type the vpsc variables/constraints "
               "the model generates are proved sound and complete for the documented meaning (all parameters, "
@@ -9,9 +9,21 @@ LEVEL_TEXT = ("Proof component: for every libcola compound-constraint type the v
               "proved to decide the tolerance specs. Tie: the model's generated variables and constraints are "
               "compared exactly with generateVariables/generateSeparationConstraints of the real classes. "
               "Validation: final rectangles of ConstrainedFDLayout (makeFeasible and/or run) and "
-              "ConstrainedMajorizationLayout::run are checked per run by the proven checkers.")
-LEVEL_NOTE = ("Stress descent, makeFeasible's priority loop and the VPSC solver are NOT modelled (C01 covers the "
-              "solver); C07's end-to-end claim holds only for the sampled runs. Mapping of unsatisfiable reports to "
+              "ConstrainedMajorizationLayout::run are checked per run by the proven checkers. "
+              "makeFeasible: the control flow of ConstrainedFDLayout::makeFeasible (work list from the back, one trial per "
+              "alternative on a live IncSolver, flag scan over all of valid[dim], back-out, the unchecked combined branch of "
+              "FixedRelativeConstraint) is an executable model over the IncSolver model (Model/MakeFeasible.lean); proved for all "
+              "work lists: every kept constraint holds at the returned node positions (makeFeasible_accepted_hold), a sub-constraint "
+              "is dropped only after flagged trials of all its alternatives, violated => dropped (violated_unreported_iff_dropped), "
+              "and closed witnesses (satisfiable scene with a drop, the solver flagging a consistent equality, a combined item breaking "
+              "an accepted constraint) that the harness replays on the real library. Tie: the satisfied flags of every sub-constraint "
+              "and the rectangles right after makeFeasible() (plus the whole trial log when hook_c07 is compiled in) equal the model's "
+              "whenever every solver decision has margin > 2e-11.")
+LEVEL_NOTE = ("Stress descent is NOT modelled; makeFeasible's loop is modelled for user constraints (the lazily generated non-overlap "
+              "and cluster-containment items are not: with overlap avoidance only the flags of the user phase are compared, not positions); "
+              "C07's end-to-end claim holds only for the sampled runs. A violation right after makeFeasible() is excused as the known "
+              "finding only if the MODEL drops that sub-constraint on the same scene (class makeFeasible-drop) or flags it in a combined "
+              "solve (class makeFeasible-combined-unchecked); otherwise it is the strict kind makeFeasible-violates-accepted. Mapping of unsatisfiable reports to "
               "compound constraints is conservative (any reported sub-constraint, or a reported alignment a "
               "constraint refers to, excuses the whole compound constraint). Page boundaries are soft and have "
               "no hard meaning on the shapes. Five classes of clean-tree violations of the property text are "
@@ -23,9 +35,11 @@ RULE = ("gen-*: random mixes of all 8 compound constraint types (incl. reference
         "fd*/cml*: random graphs (edgeless, disconnected, tree, path, dense), starts (spread, coincident, clumps, grid, tight), "
         "jointly satisfiable mixes derived from a hidden placement and planted unsatisfiable gadgets (cycles, conflicting equalities, "
         "aligned-and-separated, boundary conflicts), overlap avoidance / neighbour stress on and off; non-trivial = has user constraints and the layout moved. "
-        "sizes-*: width()/height() before and after the same layout run.")
+        "sizes-*: width()/height() before and after the same layout run. "
+        "mfwit-*: the three closed witness scenes of Props/C07MakeFeasible run through the real makeFeasible().")
 TRUSTED_BASE = ["Lean 4.33 kernel", "axioms: propext, Classical.choice, Quot.sound", "compiled Lean driver",
-                "harness/c07.cpp + c07_cc.h (scene generator, dump)", "hex-float import", "g++ ASan/UBSan build of /repo sources"]
+                "harness/c07.cpp + c07_cc.h (scene generator, dump; protected-member accessor for the satisfied flags; "
+                "std::sort replicated on (priority, index) pairs to learn the order of idleConstraints)", "hex-float import", "g++ ASan/UBSan build of /repo sources"]
 ASSUMPTIONS = ["a double printed with %a is imported exactly", "generated inputs are dyadic so rectangle centres are exact",
                "unsatisfiable lists registered through setUnsatisfiableConstraintInfo are the only reporting channel"]
 EXPLANATION = "see LEVEL_TEXT / LEVEL_NOTE"
